@@ -63,12 +63,7 @@ def ofTrace : Trace → Sexp
                                ofOutcome o.outcome]
 
 def drv : PropDrv Input Trace :=
-  { decI := input?, decT := trace?, encT := ofTrace, model := model, clauses := Spec.C07.clauses,
-    classes := Spec.C07.classes }
+  { decI := input?, decT := trace?, encT := ofTrace, model := model, clauses := Spec.C07.clauses }
 
-/-- see `TTV.Drv.C06.handle`: inside a known-finding class the model exhibits the defect -/
-def handle (args : List Sexp) : Sexp :=
-  match drv.handle args with
-  | .list [mt, si, _, .list (c :: cs)] => .list [mt, si, .atom "ok", .list (c :: cs)]
-  | r => r
+def handle : List Sexp → Sexp := drv.handle
 end TTV.Drv.C07
